@@ -39,7 +39,7 @@ type solveOpts struct {
 func firstLine(s string) string {
 	for _, l := range strings.Split(s, "\n") {
 		l = strings.TrimSpace(l)
-		if l != "" {
+		if l != "" && !strings.HasPrefix(l, "WARNING") {
 			return l
 		}
 	}
@@ -53,7 +53,14 @@ func runSolver(ctx context.Context, sp solverSpec, file string, timeoutS int) (s
 	cmd := exec.CommandContext(cctx, sp.bin, sp.args(timeoutS, file)...)
 	b, _ := cmd.CombinedOutput()
 	dur = time.Since(t0).Seconds()
-	out = string(b)
+	// z3 prints WARNING lines (e.g. about patterns) before its answer: drop them
+	var kept []string
+	for _, l := range strings.Split(string(b), "\n") {
+		if !strings.HasPrefix(strings.TrimSpace(l), "WARNING") {
+			kept = append(kept, l)
+		}
+	}
+	out = strings.TrimLeft(strings.Join(kept, "\n"), "\n ")
 	fl := firstLine(out)
 	switch {
 	case fl == "unsat":
